@@ -61,6 +61,11 @@ class StackMonitor(BaseMonitor):
             st.events.append(('attach-children', cn, o['__children'], st.x['lvl']))
             self.loop_events.append(('attach-children', cn, o['__children'], st.x['lvl'], 'pop' in [x[0] if isinstance(x, tuple) else x for x in st.events]))
             return ret(None)
+        if isinstance(o, dict) and o.get('__children') is not None and cn in ('swap', 'clear', 'erase', 'pop_back', 'resize', 'assign', 'operator=', 'shrink_to_fit') and cn != 'shrink_to_fit':
+            # the list of children of a frame is only ever appended to: anything else loses or reorders nodes of the derivation
+            st.events.append(('children-mutated', cn, o['__children'], st.x['lvl']))
+            self.loop_events.append(('children-mutated', cn, o['__children'], st.x['lvl'], True))
+            return ret(None)
         if cq in ('std::move', 'std::forward') and av:
             return ret(ex.argval(av[0], st))
         if cn == 'transform' and cq.startswith(PT):
@@ -120,6 +125,9 @@ def check_hook(db, fn, selected, leaf):
         if n == 'start' and len(pushes) != 1: probs.append('start pushes %d frames' % len(pushes))
         if n != 'start' and (len(pops) != 1 or pushes): probs.append('%s pops %d and pushes %d frames, expected exactly one pop' % (n, len(pops), len(pushes)))
         if n in ('failure', 'unwind', 'start') and att: probs.append('%s attaches a node to the tree' % n)
+        for e in evs:
+            if isinstance(e, tuple) and e[0] == 'children-mutated':
+                probs.append('%s applies %s() to the children of frame %s: the children of a frame may only be appended to (order and completeness of the derivation)' % (n, e[1], e[2]))
         if n == 'success':
             for a in att:
                 i = list(evs).index(a)
@@ -145,6 +153,8 @@ def check_hook(db, fn, selected, leaf):
         if not le:
             probs.append('the children collected by the unselected frame are not handed to the frame below (they are lost)')
         for a in le:
+            if a[0] == 'children-mutated':
+                probs.append('success applies %s() to the children of frame %s: the children of a frame may only be appended to (order and completeness of the derivation)' % (a[1], a[2])); continue
             if a[1] not in ('emplace_back', 'push_back'): probs.append('children are attached with %s (order of the derivation is lost)' % a[1])
             if a[2] != 0 or not a[4]: probs.append('children of the unselected frame are moved to frame %s (popped first: %s), expected the frame below after the pop' % (a[2], a[4]))
     return sorted(set(probs))
